@@ -653,6 +653,16 @@ def r4_8(run):
                             if k[0] == "c" and (str(k[1]).startswith("_") or k[1] in allowed):
                                 continue
                             hits.setdefault(show(x)[:60], e.node)
+            gq = "pandapipes.component_models.component_toolbox.get_component_array"
+            gparams = ix.func(gq).params()
+            for e in r.calls():
+                if e.fn == ("f", gq):
+                    a_ = dict(zip(gparams, e.args))
+                    a_.update(dict(e.kw))
+                    oa = a_.get("only_active", C(True))
+                    run.ob("%s.%s|component-array-of-active-rows" % (c.name, mn), oa == C(True),
+                           "%s.%s takes the component array reduced to the calculated elements (only_active)" % (c.name, mn),
+                           run.where(m, e.node), detail="only_active=%s" % show(oa))
             run.ob("%s.%s|no-element-table-read" % (c.name, mn), not hits,
                    "%s.%s works on the reduced pit and reads no element table of the net" % (c.name, mn),
                    run.where(m, next(iter(hits.values())) if hits else m.node), detail="; ".join(sorted(hits)))
